@@ -137,6 +137,24 @@ main(int argc, char** argv)
       printf("newfail=%s", t2 ? "NON-NULL" : "NULL");
       if (v_alloc_outstanding(&va) != before) printf(" SPEC-FAIL:failed-zix_tree_new-keeps-a-block");
       if (t2) zix_tree_free(t2);
+      // a tree without a destroy callback (the library's no-op stands in): elements are not touched, nothing leaks
+      {
+        static VAlloc va2;
+        static long   ks[3] = {20, 10, 30};
+        const int     cmp_calls_before = cmp_calls;
+        v_alloc_init(&va2);
+        va2.logging = false;
+        ZixTree* const t3 = zix_tree_new(&va2.base, true, cmp, &cmp_tag, NULL, NULL);
+        ZixTreeIter*   it = NULL;
+        if (!t3) printf(" SPEC-FAIL:zix_tree_new-without-destroy-callback-failed");
+        else {
+          for (int i = 0; i < 3; ++i) if (zix_tree_insert(t3, &ks[i], &it)) printf(" SPEC-FAIL:insert-without-destroy-callback");
+          if (zix_tree_remove(t3, it)) printf(" SPEC-FAIL:remove-without-destroy-callback");
+          zix_tree_free(t3);
+          if (ks[0] != 20 || ks[1] != 10 || ks[2] != 30 || v_alloc_outstanding(&va2) || va2.n_errors) printf(" SPEC-FAIL:tree-without-destroy-callback-touched-elements-or-leaked");
+        }
+        cmp_calls = cmp_calls_before;
+      }
       wb();
       fputc('\n', stdout);
       continue;
